@@ -190,6 +190,77 @@ func VerifHarness_ChatQueueOrder() {
 	zz.Reach("order")
 }
 
+// The acknowledgements the backend has been told about never run ahead of the client: an acknowledgement
+// that arrives after a chat message is not counted into that message, even when the message is still
+// waiting behind an earlier packet whose handling has not finished.
+func VerifHarness_AcksNeverRunAhead() {
+	zz.MaxPreempt(2)
+	cq, backend, _ := zzChatFixture()
+	o0, o1, a, o3 := zz.Int32(), zz.Int32(), zz.Int32(), zz.Int32()
+	zz.Assume(o0 >= 0 && o0 < 1000 && o1 >= 0 && o1 < 1000 && a >= 1 && a < 20 && o3 >= 0 && o3 < 1000)
+	ts := time.Unix(1, 0)
+	slow := future.New[proto.Packet]()
+	var first *chat.LastSeenMessages
+	carried := map[int]int{}
+	cq.QueuePacket(func(ls *chat.LastSeenMessages) *future.Future[proto.Packet] { first = ls; return slow }, ts, &chat.LastSeenMessages{Offset: int(o0)})
+	cq.QueuePacket(func(ls *chat.LastSeenMessages) *future.Future[proto.Packet] {
+		carried[2] = ls.Offset
+		return future.New[proto.Packet]().Complete(zzForwarded(2, ls))
+	}, ts, &chat.LastSeenMessages{Offset: int(o1)})
+	cq.HandleAcknowledgement(int(a)) // sent by the client after message 2
+	zz.Go(func() { slow.Complete(zzForwarded(1, first)) })
+	zz.WaitAll()
+	cq.QueuePacket(func(ls *chat.LastSeenMessages) *future.Future[proto.Packet] {
+		carried[3] = ls.Offset
+		return future.New[proto.Packet]().Complete(zzForwarded(3, ls))
+	}, ts, &chat.LastSeenMessages{Offset: int(o3)})
+	zz.WaitAll()
+	zz.Assert(len(backend.order) == 3 && backend.order[0] == 1 && backend.order[1] == 2 && backend.order[2] == 3, "the backend did not receive the packets in the client's order")
+	zz.Assert(carried[2] == int(o1), "a message carried acknowledgements the client only sent after it (the backend was told more than the client had acknowledged at that point)")
+	zz.Assert(carried[3] == int(a)+int(o3) && backend.acked == int(o0)+int(o1)+int(a)+int(o3), "the held acknowledgements did not ride on the next message")
+	zz.Reach("acks-in-order")
+}
+
+// A session command the event denies (or the proxy runs itself) is not forwarded, but the last-seen
+// update it carried and the acknowledgements held back before it are: the backend is told exactly
+// what the client acknowledged.
+func VerifHarness_ConsumedCommandKeepsAcks() {
+	zz.MaxPreempt(1)
+	protocol := proto.Protocol(761) // 1.19.3
+	if zz.Bool() {
+		protocol = 766 // 1.20.5: a command with signable arguments is still a session command
+	}
+	w := zzCmdFixture(protocol)
+	held, off := zz.Int32(), zz.Int32()
+	zz.Assume(held >= 0 && held < 20 && off >= 0 && off < 100)
+	w.h.player.chatQueue.HandleAcknowledgement(int(held)) // held back: fewer than 20
+	p := &chat.SessionPlayerCommand{Command: zzTyped, Timestamp: time.Unix(5, 0)}
+	p.LastSeenMessages.Offset = int(off)
+	_ = w.h.handleSessionCommand(p, false)
+	zz.WaitAll()
+	told := 0
+	for _, o := range w.backend.log {
+		switch x := o.packet.(type) {
+		case *chat.ChatAcknowledgement:
+			told += x.Offset
+		case *chat.SessionPlayerCommand:
+			told += x.LastSeenMessages.Offset
+		case *chat.UnsignedPlayerCommand:
+			told += x.LastSeenMessages.Offset
+		}
+	}
+	rebuiltUnsigned := protocol >= 766 && w.outcome.allowed && w.outcome.modify && (w.outcome.forward || !w.proxyHas)
+	if rebuiltUnsigned {
+		// recorded as a known finding: see known_findings.json
+		zz.Assert(told == int(held)+int(off), "a 1.20.5+ session command that is rewritten and forwarded is rebuilt as an unsigned command, which cannot carry the last-seen update: the acknowledgements are lost")
+	} else {
+		zz.Assert(told == int(held)+int(off), "after a session command (forwarded, denied or run by the proxy) the backend has not been told exactly what the client acknowledged")
+	}
+	if !w.outcome.allowed {
+		zz.Reach("denied-keeps-acks")
+	}
+}
+
 func VerifMutant_AckConservation() {
 	cs := &ChatState{}
 	cs.delayedAckCount.Store(20)
